@@ -393,9 +393,19 @@ Print Assumptions C14_cm_invariant.
 Theorem C14_cm_commit_cases :
   forall st cfg,
   (validate_strict cfg <> VOk /\ cm_commit st cfg = st) \/
-  (validate_strict cfg = VOk /\ running (cm_commit st cfg) = cfg /\ snap (cm_commit st cfg) = build cfg).
+  (validate_strict cfg = VOk /\ running (cm_commit st cfg) = cfg /\ snap (cm_commit st cfg) = build cfg /\
+   applied (cm_commit st cfg) = S (applied st)).
 Proof. exact cm_commit_cases. Qed.
 Print Assumptions C14_cm_commit_cases.
+
+(* "rejected BEFORE commit": a rejected candidate leaves the WHOLE state unchanged, handler applications included
+   (first disjunct above); over any sequence of candidates the handlers ran exactly for the accepted ones *)
+Theorem C14_cm_applied_only_accepted :
+  forall cfgs st,
+  applied (fold_left cm_commit cfgs st) =
+  (applied st + length (filter (fun cfg => match validate_strict cfg with VOk => true | _ => false end) cfgs))%nat.
+Proof. exact cm_applied_count. Qed.
+Print Assumptions C14_cm_applied_only_accepted.
 
 (* "at most one group": in a published state a covering exact claim IS the answer, and a covering wildcard claim is
    the answer when the S-VLAN has no exact claim for this C-VLAN — no first-wins arbitration is left *)
@@ -427,6 +437,7 @@ Example C14_cm_nonvacuous :
   cm_run (cm_init, fun _ => running cm_init) tr
     = [None; None; Some None; None; None; Some (Some ([119]%N, 1%nat)); None; Some None] /\
   cm_generations cm_init tr = [[]; good; good] /\           (* ex_cfg collides: not published *)
-  cm_commit cm_init ex_cfg = cm_init /\ running (cm_commit cm_init good) = good.
+  cm_commit cm_init ex_cfg = cm_init /\ running (cm_commit cm_init good) = good /\
+  applied (fold_left cm_commit [good; ex_cfg; good] cm_init) = 2%nat.
 Proof. vm_compute. repeat split; reflexivity. Qed.
 Print Assumptions C14_cm_nonvacuous.
